@@ -104,23 +104,33 @@ class MolecularContainer:
         # make a new configuration to hold the average values
         avr_conformation = ConformationContainer(
             name='average', parameters=parameters, molecular_container=self)
-        container = self.conformations[self.conformation_names[0]]
-        for group in container.get_groups_for_calculations():
+        # collect the groups of all conformations: a group that is missing
+        # from the first conformation must still be reported
+        groups = []
+        for i, name in enumerate(self.conformation_names):
+            for group in self.conformations[name].get_groups_for_calculations():
+                if any(self.conformations[previous].find_group(group)
+                       for previous in self.conformation_names[:i]):
+                    continue
+                groups.append(group)
+        for group in groups:
             # new group to hold average values
             avr_group = group.clone()
             # sum up all groups ...
+            number_of_conformations = 0
             for name in self.conformation_names:
                 group_to_add = self.conformations[name].find_group(group)
                 if group_to_add:
                     avr_group += group_to_add
+                    number_of_conformations += 1
                 else:
                     str_ = (
                         'Group {0:s} could not be found in '
                         'conformation {1:s}.'.format(
                             group.atom.residue_label, name))
                     _LOGGER.warning(str_)
-            # ... and store the average value
-            avr_group = avr_group / len(self.conformation_names)
+            # ... and store the average over the conformations that have it
+            avr_group = avr_group / number_of_conformations
             avr_conformation.groups.append(avr_group)
         # store information on coupling in the average container
         if len(list(filter(lambda c: c.non_covalently_coupled_groups,
